@@ -73,6 +73,7 @@ _CCW_ENS = {
     "forall(lambda i: implies(0 <= i and i < len(bond_descriptors) and i < last_cand[0], not cand_ok(bond_descriptors, bond, i)))": "candidates-complete-before",
     "forall(lambda k, i: implies(0 <= k and k + 1 < last_n and last_cand[k] < i and i < last_cand[k + 1], not cand_ok(bond_descriptors, bond, i)))": "candidates-complete-between",
     "forall(lambda i: implies(last_cand[last_n - 1] < i and i < len(bond_descriptors), not cand_ok(bond_descriptors, bond, i)))": "candidates-complete-after",
+    "implies(is_none(bond), last_n == len(bond_descriptors) and forall(lambda k: implies(0 <= k and k < last_n, last_cand[k] == k)))": "no-bond-means-every-position-is-a-candidate",
     "implies(forall(lambda k: implies(0 <= k and k < last_n, cw(bond_descriptors, k) == cw(bond_descriptors, 0))), forall(lambda a, b: implies(0 <= a and a < last_n and 0 <= b and b < last_n, last_p[a] == last_p[b])))": "equal-weights-uniform",
     "implies(not forall(lambda k: implies(0 <= k and k < last_n, cw(bond_descriptors, k) == cw(bond_descriptors, 0))), last_norm > 0 and forall(lambda k: implies(0 <= k and k < last_n, last_p[k] * last_norm == cw(bond_descriptors, k))))": "proportional-to-weights",
     "0 <= last_pick and last_pick < last_n and last_p[last_pick] > 0 and result == last_cand[last_pick]": "zero-probability-never-taken",
